@@ -231,6 +231,11 @@ func scenarioBufferedLow(w *world) {
 						w.probe("closed-stream-never-released")
 						break
 					}
+					if waited > 30*time.Minute {
+						// (the phases of this scenario, faults included, are over long before; KF8 is handled above)
+						w.violate("C15", "buffered-amount-never-drained", "%s stream %d (closed=%v, still registered=%v): BufferedAmount() is still %d thirty minutes after the last write although the peer is reachable; the association figure is %d", ep.name, ls.sid, closed, accStreamRegistered(ep.assoc, s), s.BufferedAmount(), ep.assoc.BufferedAmount())
+						return
+					}
 				}
 			}
 			d.writerDone, aux.writerDone = true, true
@@ -278,6 +283,18 @@ func scenarioBufferedLow(w *world) {
 		return
 	}
 	if r != stopCond {
+		for _, ls := range streams {
+			if ls.tx == nil || ls.done {
+				continue
+			}
+			ep := w.eps[ls.from]
+			if _, inflight := accInflight(ep.assoc); inflight == 0 && ep.assoc.BufferedAmount() == 0 && ls.tx.s.BufferedAmount() != 0 {
+				// everything this endpoint sent has been acknowledged, yet the stream still counts bytes: its writer
+				// is waiting for a figure that will never come down
+				w.violate("C15", "buffered-amount-never-drained", "%s stream %d: BufferedAmount() is still %d %v after the heal although nothing is pending or in flight at the association (its figure is 0)", ep.name, ls.sid, ls.tx.s.BufferedAmount(), bound)
+				return
+			}
+		}
 		w.violate("C02", "stall", "buffered-amount workload did not finish %v after the heal: %s", bound, w.describeStates())
 		return
 	}
